@@ -49,6 +49,20 @@ def rebind(pairs):
             setattr(mod, attr, old)
 
 
+class TapeRandom(object):
+    """Stands in for the global `random` module functions the repository uses (choice, shuffle)."""
+
+    def __init__(self, tape):
+        self.tape = tape
+
+    def choice(self, seq):
+        return seq[self.tape.draw(len(seq))]
+
+    def shuffle(self, lst):
+        out = self.tape.shuffle(lst)
+        lst[:] = out
+
+
 class VClock(object):
     """Virtual wall clock.  `now` is seconds since the Unix epoch (UTC); every reading advances it by `tick`
     so that durations are positive and strictly monotonic; `advance` models elapsed time."""
@@ -107,7 +121,13 @@ def deterministic(tape=None, extra=(), clock=None):
     clock = clock or VClock()
     pairs = [(m, 'uuid', counter) for m in UUID_MODULES] + clock_pairs(clock) + list(extra)
     state = random.getstate()
-    random.seed(12345 if tape is None else tape.fork_seed())
+    random.seed(12345)
+    if tape is not None:
+        # the repository's uses of the process-global RNG (random listing order) are decided by the tape, lazily,
+        # so that no decision is drawn unless the code under test actually asks for one
+        pairs += [('playback.tape_cassettes.in_memory.in_memory_tape_cassette', 'shuffle', TapeRandom(tape).shuffle),
+                  ('playback.tape_cassettes.s3.s3_basic_facade', 'shuffle', TapeRandom(tape).shuffle),
+                  ('playback.tape_cassettes.s3.s3_tape_cassette', 'random', TapeRandom(tape))]
     try:
         with rebind(pairs):
             yield clock
